@@ -16,7 +16,7 @@ func init() {
 		Prop:   "C12",
 		Run:    run,
 		Replay: replay,
-		Rule: "E1 over grouping structures with a differential oracle: one abstract structure (grouping body from an 8-item menu, optional nested uses (at the top level of the grouping or inside a container of its body), definition site: same module / imported module / submodule, use site: module top / container / list / case / another grouping / own augment, one refinement from a menu of 9 incl. a nested target path, an augment inside the uses, when / if-feature / status on the uses, top-level augments of the own and of an imported module, deliberate sibling clashes and inapplicable refinements; plus 7 hand-written pairs with groupings defined in nested and sibling scopes) is rendered twice: with grouping/uses/refine/augment, and inlined (bodies copied in place, refinements applied textually, when/if-feature/status copied onto every introduced node). " +
+		Rule: "E1 over grouping structures with a differential oracle: one abstract structure (grouping body from an 8-item menu, optional nested uses (at the top level of the grouping or inside a container of its body), definition site: same module / imported module / submodule, use site: module top / container / list / case / another grouping / own augment, one refinement from a menu of 9 incl. a nested target path, an augment inside the uses, when / if-feature / status on the uses, top-level augments of the own and of an imported module, deliberate sibling clashes and inapplicable refinements; plus 7 hand-written pairs with groupings defined in nested and sibling scopes; plus two modules using the same imported grouping with every pair of modifications in one compilation) is rendered twice: with grouping/uses/refine/augment, and inlined (bodies copied in place, refinements applied textually, when/if-feature/status copied onto every introduced node). " +
 			"Both are compiled by the real compiler and the canonical dumps must be equal; for nodes introduced by a uses/augment carrying a when, the run-as-parent flag is checked separately and excluded from the comparison; for cross-module augments the introduced subtree is compared after substituting the augmenting module's name and namespace. Clashes and inapplicable refinements must be errors. Non-trivial = every structure (each contains a uses or an augment).",
 		Bound: map[string]string{
 			"quick":    "single-item bodies x 2 nestings x 3 definition sites x 6 use sites x one modification at a time (13)",
@@ -609,7 +609,103 @@ func checkScope(sp scopePair) (vs []engine.Violation, outcome string) {
 	return vs, "compared"
 }
 
+// ---------------------------------------------------------------- two users of one grouping
+
+// pairRec: two modules (a, a2) use the same grouping of module b with different modifications in one
+// compilation; each must come out as if it were the only user (the grouping is not changed by its uses).
+type pairRec struct {
+	S1 Structure `json:"s1"`
+	S2 Structure `json:"s2"`
+}
+
+var reSite = regexp.MustCompile(`\bsite\b`)
+
+func renameA(text string) string {
+	text = strings.Replace(text, "module a {", "module a2 {", 1)
+	text = strings.Replace(text, "\"urn:a\"", "\"urn:a2\"", 1)
+	text = strings.Replace(text, "prefix a;", "prefix a2;", 1)
+	return reSite.ReplaceAllString(text, "site2")
+}
+
+func checkPair(p pairRec) (vs []engine.Violation, outcome string) {
+	r1, ok1 := build(p.S1)
+	r2, ok2 := build(p.S2)
+	if !ok1 || !ok2 || r1.expect != "ok" || r2.expect != "ok" {
+		return nil, "inapplicable"
+	}
+	uses := map[string]string{"a": r1.uses["a"], "a2": renameA(r2.uses["a"]), "b": r1.uses["b"]}
+	inl := map[string]string{"a": r1.inline["a"], "a2": renameA(r2.inline["a"]), "b": r1.inline["b"]}
+	mk := func(key, detail string) {
+		vs = append(vs, engine.Violation{Key: key, Witness: p.S1.String() + "  ||  " + p.S2.String(), Detail: detail + "\n--- uses variant: " + fmt.Sprint(uses) + "\n--- inline variant: " + fmt.Sprint(inl), Harness: "pair", Replay: engine.JSON(p)})
+	}
+	opts := gen.Options{Features: []string{"a:feat", "a2:feat"}}
+	ru, ri := gen.Compile(uses, opts), gen.Compile(inl, opts)
+	cls := fmt.Sprintf("mods=%v+%v", p.S1.Mods, p.S2.Mods)
+	switch {
+	case ru.Verdict() == "panic" || ru.Verdict() == "nonterminating":
+		mk("two-users:uses-variant-"+ru.Verdict()+":"+cls, fmt.Sprint(ru.Panic))
+		return vs, "panic"
+	case !ri.OK():
+		if ru.OK() {
+			mk("two-users:uses-variant-accepts-what-inline-rejects:"+cls, fmt.Sprint(ri.Err))
+		}
+		return vs, "both-rejected"
+	case !ru.OK():
+		mk("two-users:uses-variant-rejected:"+cls, ru.Err.Error())
+		return vs, "uses-rejected"
+	}
+	du, di := stripTypeSpace(gen.DumpString(ru.MS, gen.DumpOpts{})), stripTypeSpace(gen.DumpString(ri.MS, gen.DumpOpts{}))
+	du, di = normalise(du), normalise(di) // (run-as-parent is asserted by the single-user cases)
+	if du != di {
+		mk("two-users:expansion-differs-from-inline:"+cls, gen.FirstDiff(du, di))
+	}
+	return vs, "compared"
+}
+
+func runPairs(c *engine.Ctx) {
+	sites := []string{"container", "list"}
+	for _, b := range bodyNames {
+		for _, nested := range []bool{false, true} {
+			for i, m1 := range mods {
+				for _, m2 := range mods[i:] {
+					if c.Expired() {
+						return
+					}
+					for si, site := range sites {
+						p := pairRec{
+							S1: Structure{Body: []string{b}, Nested: nested, Deep: nested && si == 1, Def: "import", Site: site, Mods: []string{m1}},
+							S2: Structure{Body: []string{b}, Nested: nested, Deep: nested && si == 1, Def: "import", Site: sites[1-si], Mods: []string{m2}},
+						}
+						id := fmt.Sprintf("pair:%s|%s", p.S1, p.S2)
+						if !c.Owns(id) {
+							continue
+						}
+						if _, ok := build(p.S1); !ok {
+							continue
+						}
+						if _, ok := build(p.S2); !ok {
+							continue
+						}
+						if !c.Case(id) {
+							continue
+						}
+						c.Add("states", 1)
+						c.Add("transitions", 2)
+						c.Nontrivial()
+						vs, outcome := checkPair(p)
+						c.Outcome("pair:" + outcome)
+						for _, v := range vs {
+							c.Report(v)
+						}
+					}
+				}
+			}
+		}
+	}
+}
+
 func run(c *engine.Ctx) {
+	runPairs(c)
 	for i, sp := range scopePairs() {
 		id := fmt.Sprintf("scope:%d:%s", i, sp.Name)
 		if !c.Owns(id) || !c.Case(id) {
@@ -714,6 +810,14 @@ func run(c *engine.Ctx) {
 }
 
 func replay(c *engine.Ctx, sub string, raw json.RawMessage) []engine.Violation {
+	if sub == "pair" {
+		var p pairRec
+		if json.Unmarshal(raw, &p) != nil {
+			return []engine.Violation{{Key: "harness-bad-replay-file"}}
+		}
+		vs, _ := checkPair(p)
+		return vs
+	}
 	if sub == "scope" {
 		var sp scopePair
 		if json.Unmarshal(raw, &sp) != nil {
